@@ -65,7 +65,7 @@ def make_case(rng):
             if faulty:
                 sub[rng.choice(["bogus", "Label", "unit", "densities", "k", " env", "W"])] = 1
         elif cls == "double_alias":
-            cands = [(syn[0], a) for syn in c12.ALIASES[kind] if syn[0] in sub for a in syn[1:]]
+            cands = [(k, a) for syn in c12.ALIASES[kind] for k in syn if k in sub for a in syn if a != k]
             if cands and faulty:
                 k, a = rng.choice(cands)
                 sub[a] = copy.deepcopy(sub[k])
